@@ -492,6 +492,17 @@ class Check:
             cov["n_" + k] = len(s)
         if self.exhaustive is not None:
             cov["exhaustive"] = self.exhaustive
+        # what the last coverage audit (lib/covaudit.py, gcov-instrumented builds of this same workload) found unreached in the
+        # property's anchor files: a monitor cannot see a break in code its workload does not execute
+        try:
+            au = json.load(open(os.path.join(VERIF, "audit", "summary.json"))).get(self.prop)
+            if au:
+                cov["coverage_audit"] = {"anchor_file_lines": au["anchor_lines"], "executed": au["executed"],
+                                         "functions_with_unexecuted_lines": {fn: sorted(fs)[:40] for fn, fs in au["unexecuted_by_function"].items()},
+                                         "note": "from the last lib/covaudit.py run of this check's quick tier (audit/%s.txt lists the lines); processes that end by "
+                                                 "_exit/signal do not flush counters, so executed is a lower bound" % self.prop}
+        except Exception:
+            pass
         self.write_evidence(cov, len(unknown))
         if rc == 0:
             if n_eval and n_inc > max(2, 0.02 * n_eval):
